@@ -20,10 +20,28 @@ class NGrid(Model):
         self.table, self.trace, self.owner = table, trace, owner
 
     def __getitem__(self, idx):
+        if isinstance(idx, int) and not isinstance(idx, bool):
+            # one domain's row (numpy: a view): ngridlevel[domain][ilevel]
+            if not -len(self.table) <= idx < len(self.table):
+                raise Raised("IndexError", None, "index %d is out of bounds for axis 0 with size %d" % (idx, len(self.table)))
+            return NGridRow(self, idx % len(self.table))
         if not (isinstance(idx, tuple) and len(idx) == 2):
             raise Unsupported("ngridlevel indexed with %r" % (idx,))
         self.trace.append(("ngridlevel", self.owner, idx))
         return self.table[idx[0]][idx[1]]
+
+
+class NGridRow(Model):
+    def __init__(self, grid, dom):
+        self.grid, self.dom = grid, dom
+
+    def __getitem__(self, il):
+        if not (isinstance(il, int) and not isinstance(il, bool)):
+            raise Unsupported("ngridlevel[%d] indexed with %r" % (self.dom, il))
+        return self.grid.table[self.dom][il]
+
+    def __len__(self):
+        return len(self.grid.table[self.dom])
 
 
 class Offsets(dict):
@@ -169,7 +187,7 @@ def run_load(tree, sc, loader=None, meta=None):
     tr = sc["trace"]
     GroupRec.trace = tr
     sc["meta"] = meta if meta is not None else {"levelmax": sc["levelmax"], "ncpu": sc["ncpu"], "ndim": sc["ndim"], "nout": 7, "path": "PATH",
-                                                "infile": "INFILE", "ncells": 99, "nparticles": 77, "lmax": 1}
+                                                "infile": "INFILE", "ncells": 99, "nparticles": 77, "lmax": 1, "levelmin": 1}
     hooks = core_hooks({
         "numpy.array": lambda x, *a, **k: RawTok(("array", tuple(tok_origin(e) for e in x), tuple(type(e).__name__ for e in x)), (4,)) if isinstance(x, (list, tuple)) else x,
         "numpy.ones": lambda n, *a, **k: [True] * n if isinstance(n, int) else (_ for _ in ()).throw(Unsupported("np.ones(%r)" % (n,))),
